@@ -12,6 +12,7 @@ Monitors:
 from __future__ import annotations
 
 import copy
+import os
 import random
 
 from pv import corpus, envdrv, envrun, gen, snap, traj
@@ -53,6 +54,9 @@ def leaf_of(d):
             return "agent:" + d[2][0][0]
         except Exception:
             return "agent"
+    if d and d[1] == "simulation-state" and d[2]:
+        parts = [p for p in str(d[2][0]).split("/") if p]
+        return "/".join(p for p in parts[-3:] if not p.isdigit() and not p.startswith("<"))[-50:]
     return d[1] if d else ""
 
 
@@ -130,6 +134,55 @@ def case_used_fresh(spec, cov, out):
         leaf = leaf_of((i, what if what != "observation" else "observation", detail))
         out.append(viol(f"used-env-differs-from-fresh/{what.split(':')[0]}/{leaf}", f"{src}: episode {k} after a dirty history diverges from the same episode on a "
                         f"clean-history environment at step {t}: {what}: {str(detail)[:400]}", {"dirty": dirty, "probe": probe, "divergence": str(dv)[:1500]}))
+
+
+def schedule_of(src):
+    """list of file tuples of an episode-scheduled folder source"""
+    import yaml
+
+    if src[0] == "folder":
+        sch = yaml.safe_load(open(os.path.join(corpus.PKG, src[1], "schedule.yaml")))["schedule"]
+        return [tuple(sch[k]) for k in sorted(sch)]
+    n = src[1].get("entries", 2)
+    return [(f"overlay_{k}.yaml",) for k in range(n)]
+
+
+def case_schedule_wrap(spec, cov, out):
+    """(a') one environment run through its episode schedule and past its end (the schedule wraps) with the same seed and
+    the same actions every episode: two episodes built from the same schedule entry must be identical - the first use of
+    an entry must leave no trace on the second."""
+    rnd = random.Random(spec["seed"])
+    src = spec["src"]
+    sched = schedule_of(src)
+    L = len(sched)
+    total = min(spec.get("max_episodes", 2 * L), L + spec.get("extra", L))
+    acts = [0 if rnd.random() < 0.3 else rnd.randrange(60) for _ in range(spec["steps"])]
+    res = traj.run_child({"src": src, "seed": spec["seed"], "keep_obs": True, "keep_state": True, "same_seed_each_episode": True,
+                          "actions": [acts] * total}, hashseed=0)
+    if "error" in res:
+        return {"harness_error": f"schedule run failed: {res['error'][-300:]}"}
+    # PrimaiteGymEnv builds entry 0 in its constructor and advances on every reset: trajectory episode e runs entry (e + 1) mod L
+    by_entry = {}
+    for e in range(total):
+        by_entry.setdefault(((e + 1) % L, sched[(e + 1) % L]), []).append(e)
+    groups = {}
+    for (idx, files), eps in by_entry.items():
+        groups.setdefault(files, []).extend(eps)
+    for files, eps in groups.items():
+        eps = sorted(eps)
+        first = [[0] + s[1:] for s in res["steps"] if s[0] == eps[0]]
+        for e in eps[1:]:
+            later = [[0] + s[1:] for s in res["steps"] if s[0] == e]
+            cov.inc("schedule_entry_reuse_pairs")
+            cov.inc("steps_compared", len(later))
+            dv = traj.first_divergence(first, later)
+            if dv:
+                i, ep, t, what, detail = dv
+                leaf = leaf_of((i, what, detail))
+                out.append(viol(f"reused-schedule-entry-differs-from-first-use/{what.split(':')[0]}/{leaf}",
+                                f"{src}: episode {e} is built from the same files {list(files)} as episode {eps[0]} (same seed, same actions) but diverges at "
+                                f"step {t}: {what}: {str(detail)[:400]}", {"actions": acts, "episodes": [eps[0], e], "divergence": str(dv)[:1500]}))
+                break
 
 
 # ------------------------------------------------------------------------------------------------ (b) instance pairs
@@ -293,7 +346,7 @@ def case_identity(spec, cov, out):
             return
 
 
-RUN = {"used_fresh": case_used_fresh, "pair": case_pair, "identity": case_identity}
+RUN = {"used_fresh": case_used_fresh, "pair": case_pair, "identity": case_identity, "schedule_wrap": case_schedule_wrap}
 
 
 class Check:
@@ -309,7 +362,7 @@ class Check:
         "every compared reset passes an explicit seed (without one the RNG stream legitimately continues)",
         "behaviour = observations, rewards, agent histories (opaque ids normalised per episode); log-file naming is not behaviour",
     ]
-    min_monitor = {"used_vs_fresh_pairs": 8, "instance_pairs": 20, "identity_walks": 6, "steps_compared": 800}
+    min_monitor = {"used_vs_fresh_pairs": 8, "instance_pairs": 20, "identity_walks": 6, "steps_compared": 800, "schedule_entry_reuse_pairs": 8}
     case_timeout = {"quick": 2400, "thorough": 10800}
 
     def cases(self, tier, seed):
@@ -326,6 +379,14 @@ class Check:
             sd = seed * 1000 + g
             specs.append({"name": f"used-gen-{sd}", "kind": "used_fresh", "src": ["gen", {"seed": sd}], "seed": sd, "dirty_steps": 40 if q else 80,
                           "probe_steps": 30 if q else 60, "episode": 1 + g % 2})
+        for i, f in enumerate(envrun.SHIPPED_FOLDERS):
+            big = f.startswith("uc7")
+            specs.append({"name": f"wrap-folder-{f}", "kind": "schedule_wrap", "src": ["folder", f], "seed": seed * 10 + i, "steps": 10 if big else 20,
+                          "max_episodes": (5 if q else 12) if big else 99, "extra": 2 if q else 4})
+        for g in range(3 if q else 12):
+            sd = seed * 1000 + 300 + g
+            specs.append({"name": f"wrap-genfolder-{sd}", "kind": "schedule_wrap", "src": ["genfolder", {"seed": sd, "family": ["routed", "dmz", "lan"][g % 3], "entries": 2 + g % 2}],
+                          "seed": sd, "steps": 24 if q else 50, "extra": 3})
         kinds = ["equal", "nmne-flip", "io-on", "thresholds", "other-seed"]
         j = 0
         for inter in INTERLEAVINGS:
